@@ -501,6 +501,23 @@ class Fn:
             lets = l + ["let %s := b2z %s in" % (r, avail),
                         "let %s := if %s then set_v_%s__pos (%s) (v_%s__pos %s + 1) else %s in" % (s2, avail, ss, upd, ss, s1, s1)]
             return lets, r, s2
+        if nm in getattr(self, "fnptrs", []) and getattr(self, "read_oracle", False):
+            # op(fd,buf,len) on the input side (option rd): the k-th call answers from element e of the run parameter g_rd__script_ like the
+            # write oracle (e >= 0: at most e + 1 bytes; -1: EINTR; <= -2: error; exhausted: as many as asked for), never more than what is
+            # left of the source g_rd__src_ from position g_rd__pos_; the bytes are stored at buf (MiniC.splice), their number is returned (0 = end of file)
+            ensure("rd__script", True); ensure("rd__src", True); ensure("rd__n", False); ensure("rd__pos", False)
+            if "errno" not in self.vtype: self.vtype["errno"] = "int"; self.vars.append("errno")
+            l1, _, s1 = self.tr(args[0], s)
+            l2, base, off, s1 = self.ptr(args[1], s1)
+            if base is None: raise Unsupported("read into a null pointer")
+            l3, n, s1 = self.tr(args[2], s1)
+            ev = self.fresh("x"); w = self.fresh("x"); s2 = self.fresh()
+            lets = l1 + l2 + l3 + [
+                "let %s := if v_rd__n %s <? alen (a_rd__script %s) then rd (a_rd__script %s) (v_rd__n %s) else %s - 1 in" % (ev, s1, s1, s1, s1, n),
+                "let %s := if %s <? 0 then -1 else Z.min (Z.min (%s + 1) %s) (alen (a_rd__src %s) - v_rd__pos %s) in" % (w, ev, ev, n, s1, s1),
+                "let %s := set_v_errno (set_v_rd__n (set_v_rd__pos (set_a_%s %s (if %s <? 0 then a_%s %s else splice (a_%s %s) %s (firstn (Z.to_nat %s) (skipn (Z.to_nat (v_rd__pos %s)) (a_rd__src %s))))) (if %s <? 0 then v_rd__pos %s else v_rd__pos %s + %s)) (v_rd__n %s + 1)) (if %s <? 0 then (if %s =? -1 then 4 else 5) else v_errno %s) in"
+                % (s2, base, s1, w, base, s1, base, s1, off, w, s1, s1, w, s1, s1, w, s1, ev, ev, s1)]
+            return lets, w, s2
         if nm in getattr(self, "fnptrs", []):
             # op(fd,buf,len) on the output side: the k-th call answers from the k-th element e of the run parameter g_wr__script_:
             # e >= 0: min(e + 1, len) bytes are accepted (appended to a_wr__out) and that number is returned; e = -1: -1 with errno = EINTR;
@@ -708,6 +725,18 @@ class Fn:
             self.pending_exit = getattr(self, "pending_exit", []) + ["(match %s with Some (v, _) => v | None => 0 end)" % r]
         # result: option (Z * st); written arrays are copied back
         val = "(match %s with Some (v, _) => v | None => 0 end)" % r
+        # two pointer arguments into ONE array of the caller (byte_copyr(s->x + q,r,s->x)): the callee sees two arrays; only the one it
+        # writes is copied back (a callee that writes both is refused).  The callee reads the other one as it was before the call:
+        # right for code that is overlap-correct (the comparison with the compiled function is what notices when it is not)
+        bases = [b for _, b in arr_args if not b.startswith(("=", "&"))]
+        if len(set(bases)) < len(bases):
+            gtext = "\n".join(l_ for l_ in getattr(g, "text", "").split("\n") if not l_.startswith("Definition set_"))
+            keep = []
+            for pn, base in arr_args:
+                if base.startswith(("=", "&")) or bases.count(base) == 1 or ("set_a_%s " % pn) in gtext: keep.append((pn, base))
+            kb = [b for _, b in keep if not b.startswith(("=", "&"))]
+            if len(set(kb)) < len(kb): raise Unsupported("call of %s writes through two pointers into one array" % nm)
+            arr_args = keep
         for pn, base in arr_args:
             s2 = self.fresh()
             if base.startswith("="):
@@ -915,11 +944,13 @@ def main():
         parts = spec.split(":"); cfile, fname = parts[0], parts[1]; alias = parts[2] if len(parts) > 2 and parts[2] else "C_" + fname
         chk = len(parts) > 3 and "chk" in parts[3].split(",")
         eofdie = len(parts) > 3 and "eofdie" in parts[3].split(",")
+        Fn.read_oracle = len(parts) > 3 and "rd" in parts[3].split(",")
         try:
             kn = {k: v for k, v in known.items() if getattr(v, "chk", False) == chk}
             Fn.eofdie = eofdie
             f = Fn(clang_function(srcdir, cfile, fname), alias, {k.split("#")[0]: v for k, v in kn.items()}, chk=chk)
-            chunks.append("(* %s: %s()%s *)\n" % (cfile, fname, " with every array access checked (v__oob)" if chk else "") + f.emit()); known[fname + ("#chk" if chk else "")] = f
+            f.text = f.emit()
+            chunks.append("(* %s: %s()%s *)\n" % (cfile, fname, " with every array access checked (v__oob)" if chk else "") + f.text); known[fname + ("#chk" if chk else "")] = f
         except Unsupported as e:
             errors.append("%s:%s: %s" % (cfile, fname, e))
             chunks.append("(* %s: %s() NOT TRANSLATED: %s *)" % (cfile, fname, str(e).replace("*)", "* )")))
